@@ -1602,7 +1602,9 @@ let step cfg s c =
             n_running = Z0 } p []
         | BuildFinished ->
           let (p1, o1) = lp_lock cfg p false in
-          let (p2, o2) = lp_newline p1 [] in ok_of s cn p2 (app o1 o2)
+          let (p2, o2) = lp_newline p1 [] in
+          ok_of s { n_total = Z0; n_started = cn.n_started; n_finished =
+            cn.n_finished; n_running = cn.n_running } p2 (app o1 o2)
         | ConsoleLock b -> let (p1, o1) = lp_lock cfg p b in ok_of s cn p1 o1
         | NewLine -> let (p1, o1) = lp_newline p [] in ok_of s cn p1 o1
         | Info m -> ok_of s cn p (app l_ninja (app (cstr m) (b_lf :: [])))
